@@ -200,7 +200,56 @@ def expect_case(case):
     return {"ok": True, "nt": nontrivial(M), "ops": k, "out": "n%d" % n}
 
 
-FUNCS = {"sparse": sparse_case, "hermitian": herm_case, "expansion": expansion_case, "reverse": reverse_case, "expectation": expect_case}
+def wide_case(case):
+    """{'n': n, 'terms': [[coef, {q: P}]..]}: registers of 9-11 qubits (bit positions beyond one byte): the sparse matrix equals the bit-arithmetic definition
+    column by column (X|b>=|1-b>, Y|b>=i(-1)^b|1-b>, Z|b>=(-1)^b|b>, qubit 0 = most significant bit), expectation values of basis states follow"""
+    import scipy.sparse as sp
+    from orquestra.quantum.operators import PauliSum, PauliTerm, get_sparse_operator
+    from orquestra.quantum.operators import get_expectation_value
+    from orquestra.quantum.wavefunction import Wavefunction
+    n = case["n"]
+    N = 2 ** n
+    idx = np.arange(N)
+    R = sp.csr_matrix((N, N), dtype=complex)
+    terms = []
+    for c, ops in case["terms"]:
+        c = complex(*c) if isinstance(c, list) else c
+        mask = 0
+        vals = np.full(N, complex(c))
+        for q, P in ops.items():
+            pos = n - 1 - int(q)
+            bit = (idx >> pos) & 1
+            if P in "XY":
+                mask |= 1 << pos
+            if P == "Y":
+                vals = vals * 1j * (1 - 2 * bit)
+            if P == "Z":
+                vals = vals * (1 - 2 * bit)
+        R = R + sp.csr_matrix((vals, (idx ^ mask, idx)), shape=(N, N))
+        terms.append(PauliTerm({int(q): P for q, P in ops.items()}, c) if ops else PauliTerm("I0", c))
+    op = PauliSum(terms) if len(terms) != 1 else terms[0]
+    M = sp.csr_matrix(get_sparse_operator(op, n_qubits=n))
+    if M.shape != (N, N):
+        return {"ok": False, "msg": "sparse operator on %d qubits has shape %s" % (n, M.shape), "sig": "wide:shape"}
+    D = M - R
+    err = np.abs(D.data).max() if D.nnz else 0.0
+    if err > 1e-12:
+        D = D.tocoo()
+        j = int(np.argmax(np.abs(D.data)))
+        return {"ok": False, "msg": "sparse matrix of %s on %d qubits differs from the tensor-product definition at entry (%d, %d)" % (op, n, D.row[j], D.col[j]), "expected": str(R[D.row[j], D.col[j]]),
+                "observed": str(M[D.row[j], D.col[j]]), "sig": "wide:sparse"}
+    # expectation value in basis states with the highest / lowest qubits set
+    for b in (0, 1, 1 << (n - 1), (1 << (n - 1)) | 1, N - 1, 1 << (n // 2)):
+        v = np.zeros(N, dtype=complex)
+        v[b] = 1
+        got = get_expectation_value(op, Wavefunction(v))
+        exp = R[b, b]
+        if abs(complex(got) - complex(exp)) > 1e-12:
+            return {"ok": False, "msg": "expectation value of %s in basis state %d of %d qubits" % (op, b, n), "expected": str(exp), "observed": str(got), "sig": "wide:expectation"}
+    return {"ok": True, "nt": True, "ops": 7, "out": "n%d" % n}
+
+
+FUNCS = {"wide": wide_case, "sparse": sparse_case, "hermitian": herm_case, "expansion": expansion_case, "reverse": reverse_case, "expectation": expect_case}
 
 
 def strings(max_index=3, max_factors=3):
@@ -268,4 +317,13 @@ def run(run):
         for n in sorted({w, min(w + 1, 3)}):
             cases.append({"op": o, "n": n})
     secs.append(Section("expectation", cases, expect_case, desc="get_expectation_value (and reverse_operator=True) over the polarisation set of states"))
+    wc = []
+    for n in ((9, 10, 11) if deep else (9, 10)):
+        for q in range(n):
+            for P in "XYZ":
+                wc.append({"n": n, "terms": [[1.0, {str(q): P}]]})
+        wc += [{"n": n, "terms": [[-0.5, {"0": "Z", str(n - 1): "Z"}], [2.0, {str(n - 2): "Z"}], [1.5, {}]]}, {"n": n, "terms": [[[0, 2], {"0": "Y", str(n - 1): "X"}], [1.0, {"1": "Z", str(n - 1): "Y"}]]},
+               {"n": n, "terms": [[1.0, {str(q): "Z" for q in range(n)}]]}, {"n": n, "terms": [[0.25, {str(q): "Z"}] for q in range(n)]}, {"n": n, "terms": [[1.0, {"3": "X"}]]}]
+        wc.append({"n": n, "terms": [[1.0, {"0": "Z"}]]})
+    secs.append(Section("wide", wc, wide_case, horizon=600, desc="registers of 9-10 (thorough 11) qubits: every single-qubit Pauli on every qubit, Z-only and mixed sums, against a vectorised bit-arithmetic reference"))
     run.run_sections(secs)
